@@ -140,7 +140,10 @@ def tee_case(draw, tier):
     kind = draw(st.sampled_from(KINDS))
     c = {"fmt": fmt, "table": tbl, "kind": kind, "passes": draw(st.sampled_from([1, 1, 2])),
          # the target may already hold the (longer) output of an earlier run: a tee replaces it, as to* does
-         "prefill": draw(st.booleans())}
+         "prefill": draw(st.booleans()),
+         # an earlier pass over the tee is abandoned after a few rows but stays alive until a complete pass has run; it is
+         # closed only then (its clean-up must not touch what the complete pass wrote)
+         "overlap": draw(st.integers(0, 3)) == 0, "overlap_k": draw(st.integers(1, 3))}
     if fmt in ("csv", "tsv"):
         c["kw"] = {"encoding": draw(st.sampled_from(["utf-8", "latin-1", "utf-8-sig"] if kind in ("plain", "mem") else ["utf-8", "latin-1"]))}
         wh = draw(st.sampled_from([True, False, None]))   # None: the argument is omitted (tee and to* share the default)
@@ -213,10 +216,19 @@ def check_tee(case, ctx):
                 pass
             ctx.label("prefilled")
         view = tee(codec.snapshot(tbl), t_tee, **kw)
+        stale = None
+        if case.get("overlap") and kind == "plain":
+            stale = iter(view)
+            for _ in range(case.get("overlap_k", 1)):
+                next(stale, None)
+            ctx.label("overlapping-abandoned-pass")
         for _ in range(case["passes"]):
             got = [tuple(r) for r in view]
             if got != exp:
                 return Fail("tee%s/rows" % fmt, "tee%s yielded %r, wrapped table has %r" % (fmt, got, exp))
+        if stale is not None:
+            stale.close()
+            del stale
         to(codec.snapshot(tbl), t_to, **kw)
         a, b = _raw(kind, t_tee), _raw(kind, t_to)
     except Exception as ex:
